@@ -33,6 +33,9 @@ func c08Run(f []string) string {
 	if a, ok := exprRun(f); ok {
 		return a
 	}
+	if a, ok := fmtRun(f); ok {
+		return a
+	}
 	switch f[0] {
 	case "exprw":
 		// exprw <color> <unicode> <noload> <path> <content|x> <opt> <template> <elems> <keys>
@@ -483,6 +486,50 @@ func c08Gen(r *Rand, tier string) []string {
 				r.Intn(2), HexS(normTemplate(t)), HexListS(el), "."))
 		}
 	}
+	// 3e. {format}: fmt.Sprintf on string operands - the `fmt` op (systematic verb specifications, verb soup,
+	// parsenum boundaries) and {format …} inside templates (format and operands as constants and as match
+	// groups, optimiser on and off) through `exprw`
+	{
+		cases := fmtGenCases(NewRand(r.U64()), tier)
+		for i, c := range cases {
+			if tier != "thorough" && i%2 != 0 && i > 60 {
+				continue
+			}
+			out = append(out, c)
+		}
+		nt := 300
+		if tier == "thorough" {
+			nt = 6000
+		}
+		for i := 0; i < nt; i++ {
+			var el []string
+			var fs strings.Builder
+			for k := r.Range(1, 3); k > 0; k-- {
+				if r.Chance(1, 4) {
+					fs.WriteString(Pick(r, fmtSoup))
+				} else {
+					fs.WriteString(fmtVerbSpec(r))
+				}
+				fs.WriteString(Pick(r, []string{"", "|", " "}))
+			}
+			t := "{format " + c08Arg(r, fs.String(), &el, false)
+			for k := r.Intn(4); k > 0; k-- {
+				t += " " + c08Arg(r, Pick(r, fmtOperands), &el, false)
+			}
+			t += "}"
+			switch r.Intn(8) {
+			case 0:
+				t = "{len " + t + "}"
+			case 1:
+				t = "{format \"%s|%5s\" " + t + " " + t + "}"
+			case 2:
+				t = "a" + t + "b"
+			case 3:
+				t = "{format }"
+			}
+			out = append(out, fmt.Sprintf("exprw 0 0 0 %s x %d %s %s %s", HexS(c08LoadFile("x")), r.Intn(2), HexS(normTemplate(t)), HexListS(el), "."))
+		}
+	}
 	// 4. the family generators (boundary values per helper)
 	for _, gen := range exprGens {
 		cases := c08SafeGen(gen, NewRand(r.U64()))
@@ -745,6 +792,8 @@ func quoteArg(v string) string {
 
 func c08Stats(cases []string) map[string]int {
 	st := map[string]int{}
+	fmtStats(cases, st)
+	delete(st, "op.fmt")
 	if c08Dropped > 0 {
 		st["dropped.resource"] = c08Dropped
 	}
@@ -754,7 +803,7 @@ func c08Stats(cases []string) map[string]int {
 			continue
 		}
 		st["op."+f[0]]++
-		if f[0] == "gm" {
+		if f[0] == "gm" || f[0] == "fmt" {
 			continue
 		}
 		if f[0] == "exprw" && len(f) == 10 {
